@@ -32,6 +32,10 @@ class GenuineLedger:
         self.wallet = {p: g1.new_key(rng) for p in ALL_PATHS}
         self.best_block = rng.randbytes(32)
         self.last_tx = rng.randbytes(8)
+        # (today's firmware reports 0; the field is an 8-byte big-endian number all the same)
+        self.timestamp = rng.choice([bytes(8), bytes(8), rng.randbytes(8),
+                                     (1759449600).to_bytes(8, "big"),
+                                     (2**32 + rng.randrange(1000)).to_bytes(8, "big")])
         self.signer_framing = signer_framing
         self.page_size = page_size or rng.choice([30, 40, 60, 80, 255])
         self.alter = alter or {}              # single-point alterations of answers
@@ -74,7 +78,7 @@ class GenuineLedger:
         if self.signer_framing == "legacy":
             return b"HSM:SIGNER:5.4" + self.keys_hash()
         return (b"POWHSM:5.4::" + b"led" + self.signer_ud + self.keys_hash() +
-                self.best_block + self.last_tx + bytes(8))
+                self.best_block + self.last_tx + self.timestamp)
 
     def _alt(self, what, value):
         # a single-point alteration: applied once per datum, so that page-wise
@@ -192,6 +196,10 @@ class GenuineSGX:
         self.wallet = {p: g1.new_key(rng) for p in ALL_PATHS}
         self.best_block = rng.randbytes(32)
         self.last_tx = rng.randbytes(8)
+        # (today's firmware reports 0; the field is an 8-byte big-endian number all the same)
+        self.timestamp = rng.choice([bytes(8), bytes(8), rng.randbytes(8),
+                                     (1759449600).to_bytes(8, "big"),
+                                     (2**32 + rng.randrange(1000)).to_bytes(8, "big")])
         self.depth = depth
         self.auth_len = auth_len
         self.page_size = page_size or rng.choice([100, 200, 255])
@@ -233,7 +241,7 @@ class GenuineSGX:
             if len(ud) != 32:
                 raise SW(0x6B00)
             self.message = (b"POWHSM:5.4::" + b"sgx" + ud + self.keys_hash() + self.best_block +
-                            self.last_tx + bytes(8))
+                            self.last_tx + self.timestamp)
             if self.rng.random() < 1 / 3:
                 # one device in three holds a state whose message digest (what the quote
                 # commits to) begins or ends with a zero byte
@@ -241,7 +249,7 @@ class GenuineSGX:
                 for _ in range(4000):
                     self.best_block = self.rng.randbytes(32)
                     self.message = (b"POWHSM:5.4::" + b"sgx" + ud + self.keys_hash() +
-                                    self.best_block + self.last_tx + bytes(8))
+                                    self.best_block + self.last_tx + self.timestamp)
                     dg = hashlib.sha256(self.message).digest()
                     if dg[0] == 0 or dg[-1] == 0:
                         self.zero_edge_digest = True
